@@ -34,11 +34,14 @@ type Plan struct {
 	Batch   int    `json:"batch"` // the peer answers when this many calls are waiting (or after a short idle time)
 	Seed    uint32 `json:"seed"`  // permutes the answers inside a batch
 	Procs   int    `json:"procs"`
+	// PeerCalls: while the callers run, the peer sends this many calls of its own to the Conn,
+	// whose handler answers them (so replies and the Conn's own calls share the write side).
+	PeerCalls int `json:"peer_calls,omitempty"`
 }
 
 var recConc = ev.New("C18", "c18.concurrent",
-	"plans of 2..8 concurrent callers x 1..4 operations (calls answered / answered with an error / never answered, notifications; payloads 0..20KB; cancellations at generated delays) on one Conn over a synchronous net.Pipe against a scripted peer with its own frame parser that answers in generated batches and permutations, then sends late duplicates and an unknown id; run under the race detector. "+
-		"Oracle: the peer never sees a malformed or interleaved frame; every Call returns the result/error carrying its own token, or its own context's error if (and only if) that context was cancelled; notifications all arrive; the connection still works afterwards and shuts down. "+
+	"plans of 2..8 concurrent callers x 1..4 operations (calls answered / answered with an error / never answered, notifications; payloads 0..20KB; cancellations at generated delays) on one Conn over a synchronous net.Pipe against a scripted peer with its own frame parser that answers in generated batches and permutations and meanwhile sends 0-40 calls of its own, which the Conn's (asynchronous) handler answers, then sends late duplicates and an unknown id; run under the race detector. "+
+		"Oracle: the peer never sees a malformed or interleaved frame; every Call returns the result/error carrying its own token, or its own context's error if (and only if) that context was cancelled; notifications all arrive; every peer call gets exactly one reply; the connection still works afterwards and shuts down. "+
 		"Non-trivial = >=4 calls in flight answered out of order (batch>=2) with at least one cancellation or never-answered call; distinct by plan")
 
 type wireMsg struct {
@@ -111,7 +114,14 @@ func decidePlan(p Plan) error {
 	conn := jsonrpc2.NewConn(jsonrpc2.NewStream(c1))
 	ctx, cancelAll := context.WithCancel(context.Background())
 	defer cancelAll()
-	conn.Go(ctx, func(ctx context.Context, reply jsonrpc2.Replier, req jsonrpc2.Request) error { return reply(ctx, nil, nil) })
+	conn.Go(ctx, jsonrpc2.AsyncHandler(func(ctx context.Context, reply jsonrpc2.Replier, req jsonrpc2.Request) error {
+		// echo the parameters back: the reply to a peer call is a frame like any other
+		var params json.RawMessage
+		if req.Params() != nil {
+			params = append(params, req.Params()...)
+		}
+		return reply(ctx, params, nil)
+	}))
 
 	policy := map[string]string{"after": "answer"}
 	nCalls, nNotifs := 0, 0
@@ -131,6 +141,7 @@ func decidePlan(p Plan) error {
 	var peerErr error
 	seenNotif := map[string]int{}
 	seenCall := map[string]int{}
+	peerReplies := map[string]int{}
 	answered := []string{}
 	queue := make(chan pendingCall, 1024)
 	peerDone := make(chan struct{})
@@ -161,6 +172,13 @@ func decidePlan(p Plan) error {
 			}
 			if m.Method == "final" {
 				close(finalSeen)
+				continue
+			}
+			if m.Method == "" && m.ID != nil {
+				// a reply to one of the peer's own calls
+				mu.Lock()
+				peerReplies[string(*m.ID)]++
+				mu.Unlock()
 				continue
 			}
 			if m.Params == nil {
@@ -225,6 +243,21 @@ func decidePlan(p Plan) error {
 		}
 	}()
 
+	// the peer's own calls, written while the callers are busy
+	peerCallsDone := make(chan struct{})
+	go func() {
+		defer close(peerCallsDone)
+		for k := 0; k < p.PeerCalls; k++ {
+			pad := strings.Repeat("p", int(prio(p.Seed, fmt.Sprint("pad", k))%3)*700)
+			wmu.Lock()
+			_ = writeFrame(c2, fmt.Sprintf(`{"jsonrpc":"2.0","id":"p%d","method":"ping","params":{"token":"p%d","pad":%q}}`, k, k, pad))
+			wmu.Unlock()
+			if prio(p.Seed, fmt.Sprint("gap", k))%4 == 0 {
+				time.Sleep(50 * time.Microsecond)
+			}
+		}
+	}()
+
 	// callers
 	type outcome struct {
 		tok string
@@ -283,6 +316,7 @@ func decidePlan(p Plan) error {
 	case <-time.After(30 * time.Second):
 		return errors.New("callers did not finish within 30s (a call neither got its response nor honoured its cancellation)")
 	}
+	<-peerCallsDone
 	close(stopResp)
 	<-respDone
 	close(outcomes)
@@ -353,6 +387,11 @@ func decidePlan(p Plan) error {
 	if peerErr != nil {
 		return peerErr
 	}
+	for k := 0; k < p.PeerCalls; k++ {
+		if n := peerReplies[fmt.Sprintf(`"p%d"`, k)]; n != 1 {
+			return fmt.Errorf("the peer's own call p%d got %d replies", k, n)
+		}
+	}
 	for i, ops := range p.Callers {
 		for j, op := range ops {
 			tok := fmt.Sprintf("c%d-%d", i, j)
@@ -395,6 +434,10 @@ func TestPropConcurrent(t *testing.T) {
 			Callers: rapid.SliceOfN(rapid.SliceOfN(genOp, 1, 4), 2, 8).Draw(t, "callers"),
 			Batch:   rapid.IntRange(1, 6).Draw(t, "batch"),
 			Seed:    rapid.Uint32().Draw(t, "seed"),
+		}
+		if rapid.Bool().Draw(t, "withPeerCalls") {
+			p.PeerCalls = rapid.SampledFrom([]int{1, 5, 20, 40}).Draw(t, "peerCalls")
+			recConc.Class("the peer calls the Conn too")
 		}
 		recConc.Eval(1)
 		calls, special := 0, 0
